@@ -3357,3 +3357,125 @@ func E5PaintFollowsItsSetter(c *core.Ctx, r *core.Report) {
 	r.Count("E5.paint-follows-its-setter", n)
 	r.Floor("E5.paint-follows-its-setter", 10)
 }
+
+// E5GlyphStringEscapes: the bytes of a shown string are written raw or by an escape of fixed length.
+func E5GlyphStringEscapes(c *core.Ctx, r *core.Report) {
+	r.Rule("E5.glyph-string-escapes", "pdfPageWriter.WriteText writes glyph codes as the bytes of a literal string, through an if-chain on the byte. A reader decodes `\\\\` followed by n r t b f ( ) \\\\ as one byte and `\\\\` followed by one to three octal digits as one byte, taking as many digits as follow. Every write in a branch of those chains is therefore a single byte (WriteByte of a constant or of the byte itself), the second byte of such a pair, or an octal escape padded to three digits (`\\\\%03o`). An unpadded `\\\\%o` swallows a following raw digit 0–7: code 0x0130 is written `\\\\1` `0` and read back as the single byte 0x08, a byte is lost and every later code of the string is read from the wrong pairs — wrong glyphs and advances for fonts with more than 304 glyphs in use")
+	p := c.MustPkg(pdfRel)
+	info := p.TypesInfo
+	fd := core.MustFuncDecl(p, "pdfPageWriter.WriteText")
+	r.Func("pdf.pdfPageWriter.WriteText")
+	n := 0
+	chains := 0
+	var visitChain func(is *ast.IfStmt, b types.Object, chain int)
+	byteVar := func(cond ast.Expr) types.Object {
+		var o types.Object
+		ast.Inspect(cond, func(m ast.Node) bool {
+			be, ok := m.(*ast.BinaryExpr)
+			if !ok || (be.Op != token.EQL && be.Op != token.LSS && be.Op != token.LEQ) {
+				return true
+			}
+			for _, pr := range [][2]ast.Expr{{be.X, be.Y}, {be.Y, be.X}} {
+				if id, ok := core.Unparen(pr[0]).(*ast.Ident); ok {
+					if _, isC := core.ConstInt(info, pr[1]); isC {
+						if bt, ok := info.TypeOf(id).Underlying().(*types.Basic); ok && (bt.Kind() == types.Uint8 || bt.Kind() == types.Int32) {
+							o = core.ObjOf(info, id)
+						}
+					}
+				}
+			}
+			return true
+		})
+		return o
+	}
+	checkBody := func(body *ast.BlockStmt, b types.Object, chain, branch int) {
+		for _, st := range body.List {
+			es, ok := st.(*ast.ExprStmt)
+			if !ok {
+				continue
+			}
+			call, ok := es.X.(*ast.CallExpr)
+			if !ok {
+				continue
+			}
+			n++
+			key := fmt.Sprintf("pdf.pdfPageWriter.WriteText|escape chain %d|branch %d|write %d", chain, branch, n)
+			f := core.CalleeOf(info, call)
+			name := ""
+			if f != nil {
+				name = f.Name()
+			}
+			switch {
+			case name == "WriteByte" && len(call.Args) == 1:
+				r.OK("E5.glyph-string-escapes", key, c.Pos(call.Pos()), types.ExprString(call.Args[0]))
+			case (name == "Fprintf" || name == "Fprint") && len(call.Args) >= 2:
+				format, isConst := constString(info, call.Args[1])
+				if isConst && (format == "\\%03o" || format == "\\%03O") {
+					r.OK("E5.glyph-string-escapes", key, c.Pos(call.Pos()), format)
+				} else {
+					r.Fail("E5.glyph-string-escapes", key, c.Pos(call.Pos()), fmt.Sprintf("`%s` writes an escape of variable length: a reader takes up to three octal digits after the backslash, so a raw byte '0'–'7' that follows is swallowed into the escape; the string loses a byte and every later two-byte code is read from the wrong pair (pad to three digits: `\\\\%%03o`)", c.Src(call)))
+				}
+			default:
+				r.Fail("E5.glyph-string-escapes", key, c.Pos(call.Pos()), fmt.Sprintf("`%s` is neither a single byte nor a fixed-length escape", c.Src(call)))
+			}
+		}
+	}
+	visitChain = func(is *ast.IfStmt, b types.Object, chain int) {
+		branch := 1
+		for cur := is; cur != nil; {
+			checkBody(cur.Body, b, chain, branch)
+			branch++
+			switch e := cur.Else.(type) {
+			case *ast.IfStmt:
+				cur = e
+			case *ast.BlockStmt:
+				checkBody(e, b, chain, branch)
+				cur = nil
+			default:
+				cur = nil
+			}
+		}
+	}
+	seen := map[*ast.IfStmt]bool{}
+	ast.Inspect(fd.Body, func(m ast.Node) bool {
+		is, ok := m.(*ast.IfStmt)
+		if !ok || seen[is] {
+			return true
+		}
+		// mark the whole chain
+		for cur := is; cur != nil; {
+			seen[cur] = true
+			if e, ok := cur.Else.(*ast.IfStmt); ok {
+				cur = e
+			} else {
+				cur = nil
+			}
+		}
+		b := byteVar(is.Cond)
+		if b == nil {
+			return true
+		}
+		// a chain of at least three comparisons of the byte with character constants whose bodies write
+		links := 0
+		for cur := is; cur != nil; {
+			if byteVar(cur.Cond) == b {
+				links++
+			}
+			if e, ok := cur.Else.(*ast.IfStmt); ok {
+				cur = e
+			} else {
+				cur = nil
+			}
+		}
+		if links < 3 {
+			return true
+		}
+		chains++
+		visitChain(is, b, chains)
+		return true
+	})
+	r.Count("E5.escape-chains", chains)
+	r.Floor("E5.escape-chains", 2)
+	r.Count("E5.glyph-string-escapes", n)
+	r.Floor("E5.glyph-string-escapes", 20)
+}
